@@ -355,5 +355,53 @@ def job_history(job, boxed=False):
         job.errors.append("history: no path with two completed calls")
 
 
+def replay_table_z(model, dry="dry gas", pmax=45):
+    """Real build_pvt_gas: its z-factor column is z_factor_DAK at the Sutton pseudocritical point of the caller's
+    composition AND gas type (so it is the root of the equation at the gas's own reduced state)."""
+    import numpy as np
+    from bluebonnet.fluids import build_pvt_gas, gas
+    m = model_floats(model, ["N2", "H2S", "CO2", "sg", "T"], default=dict(N2=0.02, H2S=0.01, CO2=0.03, sg=0.7, T=250.0))
+    gv = {"N2": m["N2"], "H2S": m["H2S"], "CO2": m["CO2"], "Gas Specific Gravity": m["sg"], "Reservoir Temperature (deg F)": m["T"]}
+    problems = []
+    for top in (pmax, 3000):
+        df = build_pvt_gas(gv, dry, top)
+        p = df["pressure"].to_numpy()
+        tpc, ppc = gas.pseudocritical_point_Sutton(m["sg"], gas.make_nonhydrocarbon_properties(m["N2"], m["H2S"], m["CO2"]), dry)
+        for j in sorted({0, len(p) // 2, len(p) - 1}):
+            ref = float(gas.z_factor_DAK(m["T"], float(p[j]), tpc, ppc))
+            got = float(df["z-factor"].iloc[j])
+            if abs(got - ref) > 1e-9 * abs(ref):
+                problems.append(f"{dry} table, row p={float(p[j])}: z-factor {got!r} vs z_factor_DAK at the {dry} Sutton point {ref!r}")
+    return bool(problems), {"what": "; ".join(problems[:2]) or "z-factor column is z_factor_DAK at the gas's own Sutton point", "inputs": m}
+
+
+def job_table_z(job, pmax=45):
+    """The default-table clause: every z-factor in build_pvt_gas's table is z_factor_DAK(T, p_row, Sutton point of the
+    caller's composition and gas type) - the root obligations above then apply to it row by row."""
+    from .c08 import load_fluid_with_ufs
+    mod, gas, ufs = load_fluid_with_ufs()
+    job.encoded(mod, "build_pvt_gas")
+    job.stub("z_factor_DAK and the other gas correlations inside build_pvt_gas: uninterpreted recording functions of their arguments")
+    job.bound(maximum_pressure=pmax)
+    vs, dom = box(None, N2=(0, "0.2"), H2S=(0, "0.2"), CO2=(0, "0.2"), sg=("0.55", "1.2"), T=(60, 400))
+    gv = {"N2": vs["N2"], "H2S": vs["H2S"], "CO2": vs["CO2"], "Gas Specific Gravity": vs["sg"], "Reservoir Temperature (deg F)": vs["T"]}
+    from ..sx.sym import Q as _Q
+    for dry in ("dry gas", "wet gas"):
+        def run():
+            df = mod.build_pvt_gas(gv, dry, _Q(pmax))
+            tpc, ppc = gas.pseudocritical_point_Sutton(vs["sg"], gas.make_nonhydrocarbon_properties(vs["N2"], vs["H2S"], vs["CO2"]), dry)
+            return df, tpc, ppc
+        for k, pr in enumerate(paths(job, run, dom, max_paths=64)):
+            if pr.exc is not None:
+                job.prove(f"table[{dry}]/build_pvt_gas raises {type(pr.exc).__name__}[path{k}]", pr.pc, bound=f"maximum {pmax}", replay=(replay_table_z, {"dry": dry, "pmax": pmax}))
+                continue
+            df, tpc, ppc = pr.value
+            p = df["pressure"].d
+            rows = [not_close(df["z-factor"].d[j], ufs["z_factor_DAK"](vs["T"], q, tpc, ppc), abs_tol=Fraction(0)) for j, q in enumerate(p)]
+            job.prove(f"table[{dry}]/z-factor column == z_factor_DAK at (T, p_row, Sutton point of the caller's gas type)[path{k}]",
+                      pr.pc + [T.b_or(*rows)], bound=f"{len(p)} rows", replay=(replay_table_z, {"dry": dry, "pmax": pmax}))
+            job.prove(f"table[{dry}]/reach[path{k}]", pr.pc, expect="sat")
+
+
 def jobs(tier):
-    return [("dak", job_dak), ("history", job_history), ("history-0d-temperatures", lambda j: job_history(j, True))]
+    return [("default-table-z-column", job_table_z), ("dak", job_dak), ("history", job_history), ("history-0d-temperatures", lambda j: job_history(j, True))]
